@@ -140,8 +140,12 @@ class Tmatrix(ScatteringTheory):
                                    "too large for the T-matrix code")
         NP = -1 - int(iscyl)
         ndgs = 5
+        # The kernels work in a frame whose z axis is the propagation
+        # direction of the light, i.e. HoloPy's z axis reversed (positions are
+        # mirrored accordingly in ImageFormation): a symmetry axis with polar
+        # angle beta in HoloPy's frame has polar angle 180 - beta there.
         alpha = scatterer.rotation[2] * 180 / np.pi
-        beta = scatterer.rotation[1] * 180 / np.pi
+        beta = 180 - scatterer.rotation[1] * 180 / np.pi
         # The Fortran code only accepts 0 <= alpha <= 360, 0 <= beta <= 180
         # (and stops the process otherwise); map other values to the
         # equivalent orientation of the symmetry axis inside that range.
